@@ -198,4 +198,46 @@ def R_graph_roles(ctx):
     roles_rule(ctx, "C05.R5")
 
 
-RULES = [R1_decision_table, R2_loop_exits, R3_route_or_error, R4_response, R_graph_roles]
+def R5_who_reports_no_path(ctx):
+    """C05.R6 'no path' is only reported where unreachability has been established"""
+    F = ctx.F
+    ctx.rule("C05.R6", "SearchError::NoPathExists* is constructed only (a) in advance_search on an exhausted frontier with a destination (R1), (b) in the edge-oriented wrappers under `is_empty()` of the sub-search's result; any other construction site could report 'no path' for a reachable destination", floor=3)
+    ERR = "routee_compass_core::algorithm::search::search_error::SearchError"
+    allowed = {
+        astar.ADV: "frontier exhausted (decision table R1)",
+        astar.A + "a_star::a_star_algorithm::run_a_star_edge_oriented": "sub-search result empty",
+        astar.A + "search_algorithm::SearchAlgorithm::run_edge_oriented": "sub-search result empty",
+        astar.A + "search_algorithm::run_edge_oriented": "sub-search result empty",
+    }
+    n = 0
+    for p, b in sorted(F.bodies.items()):
+        tm = None
+        for bb, blk in enumerate(b.blocks):
+            if blk.get("cleanup"):
+                continue
+            for pos, st in enumerate(blk["stmts"]):
+                if st["k"] == "assign" and st["rv"]["k"] == "agg" and st["rv"].get("adt") == ERR and str(st["rv"].get("variant", "")).startswith("NoPathExists"):
+                    n += 1
+                    root = p.split("::{closure")[0]
+                    inst = "%s:%s" % (short_fn_name(root), st["rv"]["variant"])
+                    if root not in allowed:
+                        ctx.bad(inst, "'no path' is reported from %s, where unreachability of the destination has not been established by an exhausted search" % short_fn_name(root), b.where(bb))
+                        continue
+                    if root == astar.ADV:
+                        ctx.ok(inst, allowed[root])
+                        continue
+                    tm = tm or Terms(b)
+                    guarded = False
+                    for sbb, dt, names, t in switches(b, tm):
+                        if names is not None:
+                            continue
+                        d = nosite(deep_strip(dt))
+                        if d[0] == "call" and re.search(r"::is_empty$", d[1]) and contains(d, lambda q: q[0] == "call" and (q[1] == astar.RUN or q[1].endswith("SearchAlgorithm::run_vertex_oriented"))):
+                            f_, tr_ = bool_targets(t)
+                            if tr_ is not None and b.dominates(tr_, bb) and not b.dominates(f_, bb):
+                                guarded = True
+                    ctx.check(guarded, inst, "'no path' is not guarded by is_empty() of the sub-search's result", b.where(bb), detail=allowed[root])
+    ctx.check(n >= 3, "sites-found", "expected at least the three known construction sites, found %d" % n, None)
+
+
+RULES = [R1_decision_table, R2_loop_exits, R3_route_or_error, R4_response, R_graph_roles, R5_who_reports_no_path]
